@@ -39,7 +39,7 @@ func init() { register("prefixconc", prefixConcEngine{}) }
 func (prefixConcEngine) Gen(rng *rand.Rand, tier string, i int) any {
 	sh := [][2]int{{62, 64}, {61, 64}, {60, 64}, {64, 64}, {122, 124}, {63, 65}}[rng.Intn(6)]
 	c := &prefixConcCase{Pool: genPool(rng, sh[0]), Alloc: sh[1], Clients: 1 + rng.Intn(5), Seed: rng.Int63()}
-	c.Kind = []string{"same-client", "distinct", "mixed", "mixed"}[rng.Intn(4)]
+	c.Kind = []string{"same-client", "distinct", "mixed", "mixed", "fresh-mixed"}[rng.Intn(5)]
 	total := 0
 	for b := 0; b < 2+rng.Intn(3) && total < 40; b++ {
 		k := 2 + rng.Intn(11)
@@ -133,7 +133,7 @@ func (prefixConcEngine) Run(ctx *fw.Ctx, cs any) {
 	// shadow holds what clients were told so far (sequentially between bursts), so
 	// that the generator can ask for "own" / "other's" prefixes.
 	gid := 0
-	for _, k := range c.Bursts {
+	for bi, k := range c.Bursts {
 		ps := make([]*pend, 0, k)
 		var storm []byte
 		stormClient := rng.Intn(c.Clients)
@@ -150,6 +150,22 @@ func (prefixConcEngine) Run(ctx *fw.Ctx, cs any) {
 					storm = pkt.Msg6(1, r.xid, []pkt.Opt6{pkt.O6(pkt.OptClientID6, r.duids[ci]), pkt.IAPD(1, 0, 0, nil)})
 				}
 				data, desc = storm, fmt.Sprintf("c%d hint-less SOLICIT (storm)", ci)
+			case c.Kind == "fresh-mixed":
+				// one client per burst - a new one as long as there are any - sends messages that ask for no
+				// prefix at all (INFORMATION-REQUEST, an address-only SOLICIT) together with several that do
+				ci = bi % c.Clients
+				r.xid++
+				switch {
+				case j == 0 || (j == 1 && k > 4):
+					typ := []byte{11, 1, 4}[rng.Intn(3)]
+					o := []pkt.Opt6{pkt.O6(pkt.OptClientID6, r.duids[ci]), pkt.ORO(23, 24)}
+					if typ != 11 {
+						o = append(o, pkt.IANA(5, 0, 0, nil))
+					}
+					data, desc = pkt.Msg6(typ, r.xid, o), fmt.Sprintf("c%d type=%d without IA_PD", ci, typ)
+				default:
+					data, desc = pkt.Msg6([]byte{1, 3}[rng.Intn(2)], r.xid, []pkt.Opt6{pkt.O6(pkt.OptClientID6, r.duids[ci]), pkt.IAPD(1, 0, 0, nil)}), fmt.Sprintf("c%d hint-less IA_PD#1", ci)
+				}
 			case c.Kind == "distinct":
 				ci = j % c.Clients
 				data, desc = r.buildMsg(ci, nil)
